@@ -15,6 +15,9 @@ CLAIMED = {
  "C02": ("algebraic normal form of every comparison against TotalVotingPower() + guard-dominance on tally/majority stores + key-covers-equality field sets",
          "Decides that every quorum comparison in the module has the strict >2/3 form, that power is tallied once per validator and only after verification, that maj23 is set only on the crossing, that VerifyCommit/MakeCommit obey their guards, and that the tally map key covers block-id equality; universal over executions of these functions, not a proof about vote histories.",
          "DESIGN.md §4 C02"),
+ "C05": ("must-precede / must-follow ordering on SSA CFGs, guard-dominance, fsync must-pass-through over the resolved call chain, single-batch writer discipline, publish-last ordering over the VTA call tree (writer order vs the recovery reader's dereference chain)",
+         "Decides the write-ahead, fsync-before-act, save→end-marker→apply and atomic-batch shapes on every path, the catch-up replay guards, and whether every record recovery dereferences from the head height is written before the head marker (flags the consensus-state record as an open finding). Does not decide post-crash store consistency or double-sign freedom over crash points.",
+         "DESIGN.md §4 C05"),
  "C11": ("field-flow coverage of the canonical sign-bytes builders and signing hashes + sign/verify sibling agreement (same canonicaliser callee) + guard-dominance on recovery and signature-value checks",
          "Decides that every field of the signed canonical vote/proposal comes from the message (flags the hard-coded vote type as an open finding), that all sign and verify sites hash the same canonical bytes, that VerifySignature/Vote.Verify bind the signer, and that transaction signing hashes cover all fields with chain-id and high-s rejection before recovery. Cryptographic strength is trusted, not decided.",
          "DESIGN.md §4 C11"),
